@@ -3,15 +3,16 @@ For each /tmp/mut-<P>/OUT/<X>/: patch applies to a scratch copy of /repo's HEAD;
 passes with the patch; the demonstration passes without the patch and fails with it."""
 import glob, json, os, shutil, subprocess, sys, tempfile
 CACHE = os.path.expanduser("~/.cache/cfr-verif")
-TARGET = os.path.join(CACHE, "seed-target")
-env = dict(os.environ, CARGO_NET_OFFLINE="true", CARGO_TARGET_DIR=TARGET)
+# NOTE: one target dir PER scratch copy. A target dir shared between copies of the same package made
+# cargo reuse artifacts of a previously patched copy (rsync preserves mtimes): wrong verdicts.
 
 def run(cmd, cwd):
+    env = dict(os.environ, CARGO_NET_OFFLINE="true", CARGO_TARGET_DIR=os.path.join(cwd, "target"))
     p = subprocess.run(cmd, cwd=cwd, env=env, capture_output=True, text=True)
     return p.returncode, (p.stdout + p.stderr)[-3000:]
 
 def main():
-    only = sys.argv[1:]
+    only = [a for a in sys.argv[1:] if not a.startswith("--")]
     for d in sorted(glob.glob("/tmp/mut-C*/OUT/*") + glob.glob("/tmp/mut2-C*/OUT/*") + glob.glob("/tmp/mut3-C*/OUT/*")):
         pid = d.split("/")[2].replace("mut3-", "").replace("mut2-", "").replace("mut-", "")
         x = os.path.basename(d)
@@ -19,7 +20,7 @@ def main():
         if only and sid not in only:
             continue
         dest = "/verif/seeded/%s" % sid
-        if os.path.exists(os.path.join(dest, "meta.json")):
+        if os.path.exists(os.path.join(dest, "meta.json")) and "--recheck" not in sys.argv:
             continue
         demos = glob.glob(d + "/demo_*.rs") + glob.glob(d + "/*.sh")
         if not demos or not os.path.exists(d + "/patch.diff"):
@@ -41,7 +42,7 @@ def main():
             rc2, out2 = run(["cargo", "test", "--offline", "--test", tname], wc)
             ok = (rc0 == 0 and rc1 == 0 and rc2 != 0)
             print(sid, "demo clean:", rc0, "suite with patch:", rc1, "demo with patch:", rc2, "=> CONFIRMED" if ok else "=> REJECTED")
-            if ok:
+            if ok and not os.path.exists(os.path.join(dest, "meta.json")):
                 os.makedirs(dest, exist_ok=True)
                 shutil.copy(d + "/patch.diff", dest + "/patch.diff")
                 shutil.copy(demo, dest + "/" + os.path.basename(demo))
